@@ -187,13 +187,17 @@ def run_history(ctx, cid, P):
             plan[who].append(("hb", pl, rng.choice([16, 16, 32, 255])))
             used.add("hb")
         else:
-            plan[who].append(("read0",))
+            # the same poll as a pure pump: read(max=0, min=0) handles
+            # control messages and must hand out nothing
+            plan[who].append(("read0", 0 if rng.random() < 0.5 else None))
     W = {"case": cid, "ver": pair.VNAME[ver], "suite": suite and suite[1],
          "ckey": ckey, "plan_c": [x[:1] + tuple(str(y)[:12] for y in x[1:])
                                   for x in plan["c"]],
          "plan_s": [x[:1] + tuple(str(y)[:12] for y in x[1:])
                     for x in plan["s"]]}
     got = {"c": bytearray(), "s": bytearray()}   # bytes read BY x
+    overmax = []
+    pumps = [0]
 
     def prog(who):
         e = ends[who]
@@ -207,8 +211,9 @@ def run_history(ctx, cid, P):
                 # then waits for one more record (after a KeyUpdate); when
                 # it would block at a record boundary the poll is abandoned
                 d = "s2c" if who == "c" else "c2s"
+                mx = op[1] if len(op) > 1 else None
                 if p.link.in_flight(d) or len(conn.sock._read_buffer):
-                    g = conn.readAsync(None, 0)
+                    g = conn.readAsync(mx, 0)
                     for r in g:
                         if isinstance(r, int) and r in (0, 1):
                             if r == 0 and not p.link.in_flight(d) and \
@@ -217,7 +222,11 @@ def run_history(ctx, cid, P):
                                 break
                             yield r
                         elif r:
+                            if mx is not None and len(r) > mx:
+                                overmax.append((who, mx, len(r)))
                             got[who].extend(r)
+                    if mx == 0:
+                        pumps[0] += 1
                 yield 1
             elif op[0] == "ku":
                 for r in conn.send_keyupdate_request(
@@ -278,6 +287,14 @@ def run_history(ctx, cid, P):
                     break
         if not moved:
             break
+    # what pump reads left in the connection's own buffer
+    for who in ("c", "s"):
+        e = ends[who]
+        if len(e.conn._readBuffer) and not e.conn.closed:
+            tt = drive.Task("d", drive.aread(e.conn, None, 0), e.sock)
+            drive.run([tt], p.link, max_steps=2000)
+            if tt.status == "done" and tt.result:
+                got[who].extend(tt.result)
     ctx.ev()
     ctx.count("histories")
     key = {"ver": pair.VNAME[ver], "t13": t13}
@@ -298,6 +315,12 @@ def run_history(ctx, cid, P):
         elif t.status in ("budget",):
             bad = True
             ctx.violation(dict(key, clause="spin", who=who), W, "budget")
+    ctx.count("pump_reads", pumps[0])
+    if overmax:
+        who, mx, n = overmax[0]
+        ctx.violation(dict(key, clause="read_returned_more_than_max",
+                           max=mx), dict(W, who=who, got=n),
+                      "read(max=%d, min=0) returned %d bytes" % (mx, n))
     if bad:
         return
     # FIFO model
@@ -349,6 +372,37 @@ def run_history(ctx, cid, P):
                                     depth(sec0[1], a[1])]),
                           "traffic secret is not the expected number of "
                           "'traffic upd' steps from the handshake secret")
+        # the keys *on the wire* are the ones RFC 8446 7.3 derives from
+        # those secrets (key and IV both from the current generation): one
+        # more record each way, opened with an independent AEAD
+        from vt import suites as _suites
+        from vt.props.c20 import verify_13
+        su = _suites.TABLE.get(cs_.cipherSuite)
+        for d, snd, ssock_, rcv, rsock_, sec in (
+                ("c2s", p.c, p.csock, p.s, p.ssock, a[0]),
+                ("s2c", p.s, p.ssock, p.c, p.csock, a[1])):
+            if su is None or snd.closed or rcv.closed:
+                continue
+            n0 = len(p.link.recs(d))
+            marker = b"final-record-" + d.encode()
+            tw = drive.Task("fw", drive.awrite(snd, marker), ssock_)
+            drive.run([tw], p.link)
+            recs = [r for r in p.link.recs(d)[n0:] if r.type == 23]
+            if tw.status != "done" or not recs:
+                continue
+            res = verify_13(su, sec, recs[-1], range(0, 400))
+            ctx.ev()
+            ctx.count("wire_keys_checked")
+            if res is None or res[2] != marker:
+                ctx.violation(dict(key, clause="wire_keys_not_from_secret",
+                                   dir=d, updates=n_c if d == "c2s" else n_s),
+                              dict(W, record=recs[-1].raw[:80]),
+                              "the record written after %d KeyUpdate(s) does "
+                              "not open under key and IV derived from the "
+                              "current traffic secret" % (
+                                  n_c if d == "c2s" else n_s))
+            tr = drive.Task("fr", drive.aread(rcv, None, len(marker)), rsock_)
+            drive.run([tr], p.link, max_steps=5000)
         ctx.maxi("chain_depth", max(n_c, n_s))
         ctx.count("keyupdates", n_c + n_s)
         if req_c and req_s:
@@ -815,6 +869,9 @@ def finalize(m, tier):
     if c.get("pha_cross_authenticated", 0) < 20:
         out.append("fewer than 20 KeyUpdate-crossing-PHA histories ended "
                    "authenticated")
+    if c.get("wire_keys_checked", 0) < 50:
+        out.append("fewer than 50 records opened with independently "
+                   "derived keys after KeyUpdates")
     if c.get("keyupdates", 0) == 0:
         out.append("no KeyUpdate exercised")
     if c.get("heartbeats", 0) == 0:
